@@ -532,6 +532,16 @@ def run_v13(chk, repo):
                 break
     if N is None or I is None:
         raise AnalysisError(f'V13: names / positions variables not found ({N}, {I})')
+    # plain copies (`idx2 = our_index`, as left behind by an inlined helper that re-binds its parameter) lead back to the
+    # variable the branches assign
+    for _ in range(4):
+        for a_ in ast.walk(fn):
+            if isinstance(a_, ast.Assign) and len(a_.targets) == 1 and isinstance(a_.targets[0], ast.Name) \
+                    and isinstance(a_.value, ast.Name):
+                if a_.targets[0].id == I and a_.value.id != I:
+                    I = a_.value.id
+                if a_.targets[0].id == N and a_.value.id != N:
+                    N = a_.value.id
 
     def blocks(node):
         for n in ast.walk(node):
